@@ -19,7 +19,7 @@ import dataclasses
 import re
 import threading
 import types
-from datetime import date, datetime
+from datetime import date, datetime, time
 from uuid import UUID
 from typing import Any, Callable, TypeVar, Union, get_args, get_origin, get_type_hints
 
@@ -329,6 +329,33 @@ def unstructure_uuid(data: UUID) -> str:
 
 converter.register_structure_hook(UUID, structure_uuid)
 converter.register_unstructure_hook(UUID, unstructure_uuid)
+
+
+def structure_time(data: str | time, _: type[time]) -> time:
+    """
+    Structure hook for time-of-day values (OpenAPI ``format: time`` is rendered as ``datetime.time``).
+
+    Args:
+        data: ISO 8601 time string (``10:20:30``, ``10:20:30.5+02:00``, ``10:20:30Z``), or an already structured time
+        _: Target type (time)
+
+    Returns:
+        time object
+    """
+    if isinstance(data, time):
+        return data
+    if isinstance(data, str):
+        return time.fromisoformat(data[:-1] + "+00:00" if data.endswith("Z") else data)
+    raise TypeError(f"Cannot convert {type(data)} to time")
+
+
+def unstructure_time(data: time) -> str:
+    """Unstructure hook for time values: the ISO 8601 string form."""
+    return data.isoformat()
+
+
+converter.register_structure_hook(time, structure_time)
+converter.register_unstructure_hook(time, unstructure_time)
 
 
 # =============================================================================
@@ -959,6 +986,8 @@ __all__ = [
     "unstructure_datetime",
     "structure_date",
     "unstructure_date",
+    "structure_time",
+    "unstructure_time",
     "camel_to_snake",
     "snake_to_camel",
 ]
